@@ -96,6 +96,18 @@ pub fn seeds(with_fixtures: bool) -> Vec<Seed> {
         wb.sheets.push(biff::Sheet { name: biff::XlStr::with_storage("数据", true), dims: None, recs: vec![biff::Rec::Number { r: 0, c: 0, xf: 2, v: 44000.0 }] });
         out.push(Seed { name: "xls_rich".into(), fmt: "xls".into(), body: Body::Cfb(vec![("Workbook".into(), biff::workbook_stream(&wb))]) });
     }
+    // xls with every shared-string header shape: plain, rich-text runs, phonetic (ExtRst) block, both
+    {
+        let u = |t: &str| t.encode_utf16().collect::<Vec<u16>>();
+        // (the richest headers first: the cut positions of "reccut" cover the first 48 payload bytes)
+        let strs = vec![biff::RichStr { units: u("both"), crun: 1, cb: 6, hi0: false }, biff::RichStr { units: u("ext"), crun: 0, cb: 8, hi0: true },
+                        biff::RichStr { units: u("rich"), crun: 2, cb: 0, hi0: false }, biff::RichStr { units: u("plain"), crun: 0, cb: 0, hi0: false },
+                        biff::RichStr { units: u("last"), crun: 0, cb: 0, hi0: false }];
+        let mut wb = biff::Workbook::default();
+        wb.sst = biff::Sst::Frags(biff::sst_frags(&strs, &[], 8224));
+        wb.sheets.push(biff::Sheet { name: biff::XlStr::new("S1"), dims: None, recs: (0..5).map(|i| biff::Rec::LabelSst { r: i, c: 0, xf: 0, isst: i as u32 }).collect() });
+        out.push(Seed { name: "xls_sst".into(), fmt: "xls".into(), body: Body::Cfb(vec![("Workbook".into(), biff::workbook_stream(&wb))]) });
+    }
     // ods rich: repeats, types, formula, two tables
     {
         let mut doc = ods::OdsDoc::default();
@@ -155,12 +167,37 @@ const PART_CLASSES: [&str; 6] = ["trunc0", "trunc1", "trunc_q", "trunc_h", "trun
 /// structural faults on one record of a BIFF / BIFF12 stream, with the length field kept consistent:
 /// stray bytes at the end / before the last two payload bytes, missing bytes, duplicated / dropped record
 const REC_CLASSES: [&str; 8] = ["grow1_end", "grow5_end", "grow1_mid", "grow5_mid", "shrink1_end", "shrink2_mid", "dup", "droprec"];
+/// "reccut": one BIFF record truncated to its first k payload bytes (length field consistent), k = class
+/// index: every cut position of the first RECCUT bytes -- a record that ends inside any of its header fields
+const RECCUT: usize = 48;
+/// "xmltag": one XML tag (start, end or empty-element tag at the field's offset) deleted / written twice
+const XMLTAG_CLASSES: [&str; 2] = ["delete", "twice"];
 
 pub fn nclasses(kind: &str) -> usize {
-    match kind { "num" => NUM_CLASSES.len(), "xmlnum" => XMLNUM_CLASSES.len(), "xmlref" => XMLREF_CLASSES.len(), "rec" | "rec12" => REC_CLASSES.len(), _ => PART_CLASSES.len() }
+    match kind { "num" => NUM_CLASSES.len(), "xmlnum" => XMLNUM_CLASSES.len(), "xmlref" => XMLREF_CLASSES.len(), "rec" | "rec12" => REC_CLASSES.len(),
+        "reccut" => RECCUT, "xmltag" => XMLTAG_CLASSES.len(), _ => PART_CLASSES.len() }
 }
 
 fn scan_xml(part: &str, b: &[u8], out: &mut Vec<Field>) {
+    // tags (not the XML declaration, comments or CDATA): <name ...>, </name>, <name .../>
+    let mut ntag = 0;
+    let mut j = 0;
+    while j + 1 < b.len() && ntag < 150 {
+        if b[j] == b'<' && (b[j + 1].is_ascii_alphabetic() || b[j + 1] == b'/') {
+            let mut e = j + 1;
+            let mut quote = 0u8;
+            while e < b.len() && (quote != 0 || b[e] != b'>') {
+                if quote == 0 && (b[e] == b'"' || b[e] == b'\'') { quote = b[e]; } else if quote != 0 && b[e] == quote { quote = 0; }
+                e += 1;
+            }
+            if e < b.len() {
+                out.push(Field { part: part.into(), off: j, width: e + 1 - j, kind: "xmltag" });
+                ntag += 1;
+            }
+            j = e;
+        }
+        j += 1;
+    }
     let mut i = 0;
     let mut count = 0;
     while i + 2 < b.len() && count < 400 {
@@ -202,6 +239,9 @@ fn scan_biff(part: &str, b: &[u8], out: &mut Vec<Field>) {
         out.push(Field { part: part.into(), off: pos + 2, width: 2, kind: "num" });  // record length
         if pos + 4 + len <= b.len() {
             out.push(Field { part: part.into(), off: pos, width: 4 + len, kind: "rec" });
+            if len > 0 && nrec < 120 {
+                out.push(Field { part: part.into(), off: pos, width: 4 + len, kind: "reccut" });
+            }
         }
         let pl = len.min(b.len().saturating_sub(pos + 4));
         for o in (0..pl.min(14)).step_by(2) {
@@ -353,6 +393,22 @@ fn patch(buf: &mut Vec<u8>, f: &Field, cls: usize) {
             for _ in 0..copies { all.extend_from_slice(&newrec); }
             buf.splice(f.off..f.off + f.width, all);
         }
+        "reccut" => {
+            if f.off + f.width > buf.len() || f.width < 4 { return; }
+            let len = f.width - 4;
+            if cls >= len { return; }        // not a truncation of this record
+            let mut newrec = buf[f.off..f.off + 4 + cls].to_vec();
+            newrec[2..4].copy_from_slice(&(cls as u16).to_le_bytes());
+            buf.splice(f.off..f.off + f.width, newrec);
+        }
+        "xmltag" => {
+            if f.off + f.width > buf.len() || buf[f.off] != b'<' || buf[f.off + f.width - 1] != b'>' { return; }
+            let tag = buf[f.off..f.off + f.width].to_vec();
+            match XMLTAG_CLASSES[cls] {
+                "delete" => { buf.splice(f.off..f.off + f.width, Vec::new()); }
+                _ => { buf.splice(f.off..f.off, tag); }
+            }
+        }
         "xmlnum" | "xmlref" => {
             if f.off + f.width > buf.len() { return; }
             let cur = String::from_utf8_lossy(&buf[f.off..f.off + f.width]).to_string();
@@ -494,6 +550,18 @@ pub fn exercise(fmt: &str, bytes: &[u8]) {
 }
 
 /// `cvh faults fields --out F [--fixtures 1]`: the field map TLC enumerates over
+/// `cvh faults dump --script '{"seed":3,"faults":[[36,1]]}' --out F`: the file a script denotes
+pub fn dump(args: &Args) -> i32 {
+    let v: Value = serde_json::from_str(args.req("script")).expect("script json");
+    let sd = seeds(args.get("fixtures").is_some());
+    let si = v["seed"].as_u64().unwrap() as usize - 1;
+    let fl = fields(&sd[si]);
+    let faults: Vec<(usize, usize)> = v["faults"].as_array().unwrap().iter().map(|x| (x[0].as_u64().unwrap() as usize - 1, x[1].as_u64().unwrap() as usize - 1)).collect();
+    for (f, c) in &faults { eprintln!("field {:?} class {}", fl[*f], c); }
+    std::fs::write(args.req("out"), apply(&sd[si], &fl, &faults)).unwrap();
+    0
+}
+
 pub fn write_fields(args: &Args) -> i32 {
     let mut out = std::io::BufWriter::new(std::fs::File::create(args.req("out")).unwrap());
     for (si, s) in seeds(args.get("fixtures").is_some()).iter().enumerate() {
